@@ -266,22 +266,6 @@ func (c *Ctx) tlKindTable() {
 	kinds := map[string]reflect.Kind{"Uint32": reflect.Uint32, "Int32": reflect.Int32, "Uint64": reflect.Uint64, "Int64": reflect.Int64}
 	// Decided by partial evaluation (E18): the code reachable only for kind K makes one buffer of W bytes and
 	// moves it through encoding/binary in one byte order; switch / if-chain / helpers make no difference.
-	binCall := func(q string) (order string, width int64, ok bool) {
-		for _, o := range [][2]string{{"encoding/binary.littleEndian.", "LE"}, {"encoding/binary.bigEndian.", "BE"}} {
-			if strings.HasPrefix(q, o[0]) {
-				m := strings.TrimPrefix(strings.TrimPrefix(q, o[0]), "Put")
-				switch m {
-				case "Uint16":
-					return o[1], 2, true
-				case "Uint32":
-					return o[1], 4, true
-				case "Uint64":
-					return o[1], 8, true
-				}
-			}
-		}
-		return "", 0, false
-	}
 	bswap := func(v int64) int64 {
 		u := uint32(v)
 		return int64(u>>24 | (u>>8)&0xff00 | (u<<8)&0xff0000 | u<<24)
@@ -381,11 +365,11 @@ func (c *Ctx) tlKindTable() {
 						x, y = y, x
 					}
 					id, ok := oi.owner.val(y)
-					src := callOf(stripConv(x))
-					if !ok || src == nil {
+					srcQ, okSrc := wireWordRead(x, 0)
+					if !ok || !okSrc {
 						continue
 					}
-					if o, w, ok := binCall(callQName(&src.Call)); ok && w == 4 {
+					if o, w, ok := binCall(srcQ); ok && w == 4 {
 						addWire(o, id, fmt.Sprint(v))
 					}
 				}
@@ -406,7 +390,18 @@ func (c *Ctx) tlKindTable() {
 		if f == nil {
 			continue
 		}
-		ok32 := len(callsTo(f, "encoding/binary.littleEndian.PutUint32"))+len(callsTo(f, "encoding/binary.littleEndian.Uint32")) == 1
+		n32 := len(callsTo(f, "encoding/binary.littleEndian.PutUint32")) + len(callsTo(f, "encoding/binary.littleEndian.Uint32"))
+		// ... or one call of an unexported reader helper that returns binary.LittleEndian.Uint32 of what it read
+		allInstrs(f, func(_ *ssa.BasicBlock, in ssa.Instruction) {
+			if ex, ok := in.(*ssa.Extract); ok && ex.Index == 0 {
+				if cl, ok := ex.Tuple.(*ssa.Call); ok && plainHelper(cl.Call.StaticCallee()) != nil {
+					if q, ok := wireWordRead(ex, 0); ok && q == "encoding/binary.littleEndian.Uint32" {
+						n32++
+					}
+				}
+			}
+		})
+		ok32 := n32 == 1
 		c.check(ok32, R, "tl."+fn+" count", f.Pos(), "32-bit little-endian element count", "tl."+fn+" no longer uses a 32-bit little-endian element count")
 	}
 	// element loops run to exactly the count on the wire: the decoder's bound is the decoded 32-bit count
@@ -440,12 +435,12 @@ func (c *Ctx) tlKindTable() {
 				continue
 			}
 			n++
-			var cl *ssa.Call
+			srcQ := ""
 			if bound != nil {
 				_, root := convChain(bound)
-				cl = callOf(root)
+				srcQ, _ = wireWordRead(root, 0)
 			}
-			if cl == nil || callQName(&cl.Call) != "encoding/binary.littleEndian.Uint32" {
+			if srcQ != "encoding/binary.littleEndian.Uint32" {
 				okv = false
 				desc = shape(bo.Y, 3)
 			}
@@ -565,4 +560,67 @@ func modulus(bo *ssa.BinOp) (int64, bool) {
 		}
 	}
 	return 0, false
+}
+
+// wireWordRead: v is the result of an encoding/binary read (Uint16/32/64 of either byte order), directly or as
+// the value an unexported reader helper returns on every successful return (readUint32(r) = ReadFull + Uint32).
+// Returns the qualified name of the binary call.
+func wireWordRead(v ssa.Value, depth int) (string, bool) {
+	v = stripConv(v)
+	if depth > 2 {
+		return "", false
+	}
+	var cl *ssa.Call
+	idx := 0
+	if ex, ok := v.(*ssa.Extract); ok {
+		cl, _ = ex.Tuple.(*ssa.Call)
+		idx = ex.Index
+	} else {
+		cl, _ = v.(*ssa.Call)
+	}
+	if cl == nil {
+		return "", false
+	}
+	q := callQName(&cl.Call)
+	if _, _, ok := binCall(q); ok {
+		return q, true
+	}
+	h := plainHelper(cl.Call.StaticCallee())
+	if h == nil {
+		return "", false
+	}
+	ei := errIndex(h.Signature)
+	got := ""
+	for _, r := range returnsOf(h) {
+		if idx >= len(r.Results) {
+			return "", false
+		}
+		if ei >= 0 && ei < len(r.Results) && isFailureValue(h, retVal(r, ei), r.Block()) {
+			continue
+		}
+		rq, ok := wireWordRead(retVal(r, idx), depth+1)
+		if !ok || (got != "" && got != rq) {
+			return "", false
+		}
+		got = rq
+	}
+	return got, got != ""
+}
+
+// binCall: an encoding/binary accessor, as (byte order, width in bytes).
+func binCall(q string) (order string, width int64, ok bool) {
+	for _, o := range [][2]string{{"encoding/binary.littleEndian.", "LE"}, {"encoding/binary.bigEndian.", "BE"}} {
+		if strings.HasPrefix(q, o[0]) {
+			m := strings.TrimPrefix(strings.TrimPrefix(q, o[0]), "Put")
+			switch m {
+			case "Uint16":
+				return o[1], 2, true
+			case "Uint32":
+				return o[1], 4, true
+			case "Uint64":
+				return o[1], 8, true
+			}
+		}
+	}
+	return "", 0, false
 }
